@@ -497,6 +497,18 @@ func runSession(s Session) vkit.Result {
 
 func TestCutPoints(t *testing.T) { vkit.Check(t, genSession, runSession) }
 
+// waitQueueFull waits until the presence queue is full (the watcher is not reading, so the single sender is stuck), at
+// most a few seconds.
+func waitQueueFull(e *env) {
+	for i := 0; i < 600; i++ {
+		if n, c := e.b.S.VerifPresence().VerifQueueLen(); n >= c {
+			break
+		}
+		time.Sleep(5 * time.Millisecond)
+	}
+	time.Sleep(20 * time.Millisecond)
+}
+
 // TestBurstWhileWatcherSlow: a connection holding many subscriptions (more than the presence queue holds) ends
 // while the presence watcher is not reading its socket. Every subscription is still removed and the watcher
 // is still told about every one of them, in order (subscribe before unsubscribe), once it reads again.
@@ -529,14 +541,14 @@ func TestBurstWhileWatcherSlow(t *testing.T) {
 			e.watcher.Resume()
 			t.Fatal(err)
 		}
-		time.Sleep(150 * time.Millisecond) // the presence queue (100 slots) is full, the victim's request waits
+		waitQueueFull(e) // the presence queue (100 slots) is full, the victim's request waits
 		e.watcher.Resume()
 		if _, _, err := v.Until(packets.Suback); err != nil {
 			fail("SUBSCRIBE with " + fmt.Sprint(n) + " topics while the presence watcher is slow: " + err.Error())
 		}
 		e.watcher.Pause()
 		v.Conn.Close()
-		time.Sleep(150 * time.Millisecond)
+		waitQueueFull(e)
 		e.watcher.Resume()
 		if err := v.WaitClosed(); err != nil {
 			fail("connection with " + fmt.Sprint(n) + " subscriptions did not finish closing: " + err.Error())
